@@ -136,7 +136,9 @@ func runProve(c *mc.Ctx, keys []keyT, alphas []named) {
 			fl := append([]byte{}, al.b...)
 			fl[n-1] ^= 0x01
 			checkVerify(w, "verify/other-alpha", f, k.pk, pi, fl, extra...)
-			checkVerify(w, "verify/other-alpha", f, k.pk, pi, al.b[:n-1], extra...)
+			if c.Thorough || d[1]%3 == 0 {
+				checkVerify(w, "verify/other-alpha", f, k.pk, pi, al.b[:n-1], extra...)
+			}
 		}
 		if i%7 == 0 {
 			w.Sample(map[string]string{"op": "Prove" + a.name, "key": k.desc, "alpha": al.desc, "pi": hexs(pi), "beta": hexs(tr.Beta)})
